@@ -307,7 +307,7 @@ func (e *engine) pkgHandler(fn *ssa.Function) externalFn {
 	}
 	p := fn.Pkg.Pkg.Path()
 	if strings.HasPrefix(p, "github.com/rs/zerolog") || p == "log" || strings.HasPrefix(p, "go.opentelemetry.io/") {
-		return func(fr *frame, args []value) value { return zeroResult(fn) }
+		return func(fr *frame, args []value) value { return opaqueResults(fn.Signature) }
 	}
 	if e.hpkg == fn.Pkg {
 		if f := apiIntrinsics[fn.Name()]; f != nil {
